@@ -85,7 +85,7 @@ def offer(ctx, defn, info, raw, out, parse_bad, has_dyn, wit_extra):
     dyn = "dynamic" if has_dyn else "static"
     if s.exc is not None and not isinstance(s.exc, StopIteration):
         ctx.count("failed.exception")
-        ctx.sig(out.consumption, "exception", anomaly, parse_bad, dyn)
+        ctx.sig(out.consumption, "exception", anomaly, parse_bad, dyn, info.feat.get(out.error_at, "-"))
         if out.status == "ok" and out.consumption in ("exact", "under"):
             ctx.violation(f"exception/{type(s.exc).__name__}/{out.consumption}/{harness.stopped_at({}, out, info) if False else anomaly}",
                           f"generator raised {s.exc!r} on a packet the model decodes ({out.consumption})", wit)
@@ -110,7 +110,8 @@ def offer(ctx, defn, info, raw, out, parse_bad, has_dyn, wit_extra):
     delivery = "flagged" if lw else "clean"
     ctx.count(f"yielded.{delivery}")
     if (out.consumption, delivery, anomaly, parse_bad, dyn) != ("exact", "clean", "none", True, "static"):
-        ctx.sig(out.consumption, delivery, anomaly, parse_bad, dyn)
+        last = out.items[-1][0] if out.items else "-"
+        ctx.sig(out.consumption, delivery, anomaly, parse_bad, dyn, info.feat.get(out.error_at if out.status == "error" else last, "-"))
     if not lw and not clean_by_trace:
         why = "negative-width-read" if neg or any(n < 0 for _, n in log) else "read-past-end" if not inside or past else \
               ("cursor-short" if pos < nbits_total else "cursor-beyond")
